@@ -32,3 +32,13 @@ class Duck:
 
 class DuckChild(Duck):
     """inherits the method; still not a Rule"""
+
+
+class TenantIs(Rule):
+    """a caller-defined rule that looks at caller-defined state of the inquiry (an attribute a subclass of Inquiry carries)"""
+
+    def __init__(self, tenant):
+        self.tenant = tenant
+
+    def satisfied(self, what, inquiry=None):
+        return getattr(inquiry, 'tenant', None) == self.tenant
